@@ -6,11 +6,16 @@ EXTENDS Integers, Sequences, TLC, Json, IOUtils
 Trace == ndJsonDeserialize(IOEnv.TRACE)
 VARIABLE l
 EventStep(e) ==
-  /\ e.e = "shape"
-  /\ e.stored = e.evtype              \* persisted under the name EventType reports
-  /\ e.replayed = 1                   \* SubscribeWithReplay[T] matches it (exactly once)
-  /\ e.upsrc                          \* an upcaster registered with RegisterUpcast[T, New] is applied to it
-  /\ e.uptgt                          \* the output of RegisterUpcast[Old, T] is matched by SubscribeWithReplay[T]
+  \/ /\ e.e = "shape"
+     /\ e.stored = e.evtype              \* persisted under the name EventType reports
+     /\ e.replayed = 1                   \* SubscribeWithReplay[T] matches it (exactly once)
+     /\ e.upsrc                          \* an upcaster registered with RegisterUpcast[T, New] is applied to it
+     /\ e.uptgt                          \* the output of RegisterUpcast[Old, T] is matched by SubscribeWithReplay[T]
+  \* several goroutines publish events of different shapes on one persistent bus at the same time; per shape:
+  \/ /\ e.e = "concurrent"
+     /\ e.stored = e.published           \* every event of the shape is in the log under the name EventType reports, with its own data
+     /\ e.foreign = 0                    \* and no other shape's data is stored under that name
+     /\ e.replayed = e.published         \* SubscribeWithReplay[T] delivers exactly those
 TraceInit == l = 1 /\ TLCSet(1, 1)
 TraceNext == l <= Len(Trace) /\ EventStep(Trace[l]) /\ l' = l + 1
 TraceSpec == TraceInit /\ [][TraceNext]_l
